@@ -320,6 +320,17 @@ int32_t psPemDecode(psPool_t *pool,
     *outlen = outlenPsSize;
 
 #  if defined(USE_PKCS5) && defined(USE_PBKDF1)
+    /* The CBC decryptors below work on whole cipher blocks: with a body that
+       is not a multiple of the block size they would process the partial
+       last block in full, beyond the end of dout. */
+    if ((encrypted == 1 && (*outlen % DES3_BLOCKLEN) != 0) ||
+        (encrypted == 2 && (*outlen % AES_BLOCKLEN) != 0))
+    {
+        psTraceCrypto("Encrypted PEM body is not a whole number of blocks\n");
+        memset_s(passKey, sizeof(passKey), 0x0, sizeof(passKey));
+        psFree(dout, pool);
+        return PS_PARSE_FAIL;
+    }
     if (encrypted == 1 && password)
     {
         psDes3Init(&dctx, cipherIV, passKey);
